@@ -198,3 +198,31 @@ Theorem C09_scan_rejects_section_over_limit :
     ld_read_allocs (o_zeof o) (o_maxs o) (enc_section c d ++ rest) = [].
 Proof. exact (fun hok => scan_section_limit_over hok dec_header_canon). Qed.
 Print Assumptions C09_scan_rejects_section_over_limit.
+
+(* ---- (4) cumulative allocation of the rescan in store.Resume ------------------------------------------- *)
+From GoCarProofs Require Import TotalOverlap.
+(* refuted as stated: a section that declares a length shorter than its CID makes the walker seek
+   backwards, so the same bytes are parsed again and a digest buffer is requested for each pass.
+   A 758-byte file that OpenReadWrite resumes successfully requests more than 16 x 758 bytes (the
+   growth is quadratic; replayed on the code with 64 KiB => 0.5 GiB: corpus/C09/overlap-amplification.case).
+   LoadIndex, ReadOnly.AllKeysChan and the index generation inside NewReadOnly / OpenReadable share
+   the loop shape (known finding "section-shorter-than-its-cid"). *)
+Theorem C09_resume_cumulative_allocation_refuted :
+  exists hdrdec o roots file,
+    16 * blen file < sumN (resume_allocs hdrdec KBlockstore true o roots file []) /\
+    exists st, resume hdrdec KBlockstore true o roots file [] = inl st.
+Proof.
+  exact (ex_intro _ _ (ex_intro _ _ (ex_intro _ _ (ex_intro _ _
+           (conj (proj1 (proj2 (proj2 overlap_file_resume_refuted)))
+                 (proj2 (proj2 (proj2 overlap_file_resume_refuted)))))))).
+Qed.
+Print Assumptions C09_resume_cumulative_allocation_refuted.
+(* partial, with the executable guard resume_sections_ok (no visited section is shorter than its CID):
+   all digest buffers of the rescan together are covered by the payload bytes behind the start
+   position, plus one (the last, failing) request within go-cid's constant *)
+Theorem C09_resume_cumulative_allocation_partial :
+  forall zeof base view fuel pos,
+    resume_sections_ok fuel zeof base view pos = true ->
+    sumN (resume_scan_allocs fuel zeof base view pos) <= (blen view - pos) + max_digest_alloc.
+Proof. exact resume_scan_allocs_sum_guarded. Qed.
+Print Assumptions C09_resume_cumulative_allocation_partial.
